@@ -267,7 +267,7 @@ package types
 //@   pure
 //@   ensures[C14] result != nil && fresh(result)
 //@   ensures[C14] fresh(result.Networks) && fresh(result.Volumes) && fresh(result.Secrets) && fresh(result.Configs)
-//@?   ensures[C14] forall k string :: has(result.Services, k) ==> mapsFresh(result.Services[k])   // undischarged on the reference tree: not claimed
+//@   ensures[C14] forall k string :: has(result.Services, k) ==> mapsFresh(result.Services[k])
 // C14 / F10: the kept resources must not share their label/option maps with the receiver's
 //@?   ensures[C14] forall k string :: has(result.Networks, k) ==> (result.Networks[k].Labels == nil || fresh(result.Networks[k].Labels)) && (result.Networks[k].DriverOpts == nil || fresh(result.Networks[k].DriverOpts))   // undischarged on the reference tree: not claimed
 //@?   ensures[C14] forall k string :: has(result.Volumes, k) ==> (result.Volumes[k].Labels == nil || fresh(result.Volumes[k].Labels)) && (result.Volumes[k].DriverOpts == nil || fresh(result.Volumes[k].DriverOpts))   // undischarged on the reference tree: not claimed
@@ -897,9 +897,9 @@ package types
 //@   ensures[C14] (dst[src_key].DriverOpts == nil <==> src_value.DriverOpts == nil) && (src_value.DriverOpts != nil ==> fresh(dst[src_key].DriverOpts))
 //@   ensures[C14] (forall kk string :: has(dst[src_key].DriverOpts, kk) <==> has(src_value.DriverOpts, kk))
 //@   ensures[C14] (forall kk string :: has(src_value.DriverOpts, kk) ==> dst[src_key].DriverOpts[kk] == src_value.DriverOpts[kk])
-//@?   ensures[C14] dst[src_key].Ipam.Driver == src_value.Ipam.Driver   // undischarged on the reference tree: not claimed
-//@?   ensures[C14] (dst[src_key].Ipam.Config == nil <==> src_value.Ipam.Config == nil) && (src_value.Ipam.Config != nil ==> fresh(dst[src_key].Ipam.Config)) && len(dst[src_key].Ipam.Config) == len(src_value.Ipam.Config)   // undischarged on the reference tree: not claimed
-//@?   ensures[C14] (dst[src_key].Ipam.Extensions == nil <==> src_value.Ipam.Extensions == nil) && (src_value.Ipam.Extensions != nil ==> fresh(dst[src_key].Ipam.Extensions))   // undischarged on the reference tree: not claimed
+//@   ensures[C14] dst[src_key].Ipam.Driver == src_value.Ipam.Driver
+//@   ensures[C14] (dst[src_key].Ipam.Config == nil <==> src_value.Ipam.Config == nil) && (src_value.Ipam.Config != nil ==> fresh(dst[src_key].Ipam.Config)) && len(dst[src_key].Ipam.Config) == len(src_value.Ipam.Config)
+//@   ensures[C14] (dst[src_key].Ipam.Extensions == nil <==> src_value.Ipam.Extensions == nil) && (src_value.Ipam.Extensions != nil ==> fresh(dst[src_key].Ipam.Extensions))
 //@?   ensures[C14] (forall kk string :: has(dst[src_key].Ipam.Extensions, kk) <==> has(src_value.Ipam.Extensions, kk))   // undischarged on the reference tree: not claimed
 //@?   ensures[C14] (forall kk string :: has(src_value.Ipam.Extensions, kk) ==> dst[src_key].Ipam.Extensions[kk] == src_value.Ipam.Extensions[kk])   // undischarged on the reference tree: not claimed
 //@   ensures[C14] dst[src_key].External == src_value.External
@@ -992,17 +992,17 @@ package types
 //@?   ensures[C14] (src.UpdateConfig != nil ==> copyOf_UpdateConfig(dst.UpdateConfig, src.UpdateConfig))   // undischarged on the reference tree: not claimed
 //@   ensures[C14] (dst.RollbackConfig == nil <==> src.RollbackConfig == nil) && (src.RollbackConfig != nil ==> fresh(dst.RollbackConfig))
 //@?   ensures[C14] (src.RollbackConfig != nil ==> copyOf_UpdateConfig(dst.RollbackConfig, src.RollbackConfig))   // undischarged on the reference tree: not claimed
-//@?   ensures[C14] (dst.Resources.Limits == nil <==> src.Resources.Limits == nil) && (src.Resources.Limits != nil ==> fresh(dst.Resources.Limits))   // undischarged on the reference tree: not claimed
-//@?   ensures[C14] (dst.Resources.Reservations == nil <==> src.Resources.Reservations == nil) && (src.Resources.Reservations != nil ==> fresh(dst.Resources.Reservations))   // undischarged on the reference tree: not claimed
-//@?   ensures[C14] (dst.Resources.Extensions == nil <==> src.Resources.Extensions == nil) && (src.Resources.Extensions != nil ==> fresh(dst.Resources.Extensions))   // undischarged on the reference tree: not claimed
+//@   ensures[C14] (dst.Resources.Limits == nil <==> src.Resources.Limits == nil) && (src.Resources.Limits != nil ==> fresh(dst.Resources.Limits))
+//@   ensures[C14] (dst.Resources.Reservations == nil <==> src.Resources.Reservations == nil) && (src.Resources.Reservations != nil ==> fresh(dst.Resources.Reservations))
+//@   ensures[C14] (dst.Resources.Extensions == nil <==> src.Resources.Extensions == nil) && (src.Resources.Extensions != nil ==> fresh(dst.Resources.Extensions))
 //@?   ensures[C14] (forall kk string :: has(dst.Resources.Extensions, kk) <==> has(src.Resources.Extensions, kk))   // undischarged on the reference tree: not claimed
 //@?   ensures[C14] (forall kk string :: has(src.Resources.Extensions, kk) ==> dst.Resources.Extensions[kk] == src.Resources.Extensions[kk])   // undischarged on the reference tree: not claimed
 //@   ensures[C14] (dst.RestartPolicy == nil <==> src.RestartPolicy == nil) && (src.RestartPolicy != nil ==> fresh(dst.RestartPolicy))
 //@?   ensures[C14] (src.RestartPolicy != nil ==> copyOf_RestartPolicy(dst.RestartPolicy, src.RestartPolicy))   // undischarged on the reference tree: not claimed
-//@?   ensures[C14] (dst.Placement.Constraints == nil <==> src.Placement.Constraints == nil) && (src.Placement.Constraints != nil ==> fresh(dst.Placement.Constraints)) && len(dst.Placement.Constraints) == len(src.Placement.Constraints)   // undischarged on the reference tree: not claimed
-//@?   ensures[C14] (dst.Placement.Preferences == nil <==> src.Placement.Preferences == nil) && (src.Placement.Preferences != nil ==> fresh(dst.Placement.Preferences)) && len(dst.Placement.Preferences) == len(src.Placement.Preferences)   // undischarged on the reference tree: not claimed
-//@?   ensures[C14] dst.Placement.MaxReplicas == src.Placement.MaxReplicas   // undischarged on the reference tree: not claimed
-//@?   ensures[C14] (dst.Placement.Extensions == nil <==> src.Placement.Extensions == nil) && (src.Placement.Extensions != nil ==> fresh(dst.Placement.Extensions))   // undischarged on the reference tree: not claimed
+//@   ensures[C14] (dst.Placement.Constraints == nil <==> src.Placement.Constraints == nil) && (src.Placement.Constraints != nil ==> fresh(dst.Placement.Constraints)) && len(dst.Placement.Constraints) == len(src.Placement.Constraints)
+//@   ensures[C14] (dst.Placement.Preferences == nil <==> src.Placement.Preferences == nil) && (src.Placement.Preferences != nil ==> fresh(dst.Placement.Preferences)) && len(dst.Placement.Preferences) == len(src.Placement.Preferences)
+//@   ensures[C14] dst.Placement.MaxReplicas == src.Placement.MaxReplicas
+//@   ensures[C14] (dst.Placement.Extensions == nil <==> src.Placement.Extensions == nil) && (src.Placement.Extensions != nil ==> fresh(dst.Placement.Extensions))
 //@?   ensures[C14] (forall kk string :: has(dst.Placement.Extensions, kk) <==> has(src.Placement.Extensions, kk))   // undischarged on the reference tree: not claimed
 //@?   ensures[C14] (forall kk string :: has(src.Placement.Extensions, kk) ==> dst.Placement.Extensions[kk] == src.Placement.Extensions[kk])   // undischarged on the reference tree: not claimed
 //@   ensures[C14] dst.EndpointMode == src.EndpointMode
@@ -1014,25 +1014,25 @@ package types
 //@   nopanic[C14,C20]
 //@   requires dst != nil && src != nil && dst != src
 //@   assigns dst.Resources
-//@?   ensures[C14] (dst.Resources.Limits == nil <==> src.Resources.Limits == nil) && (src.Resources.Limits != nil ==> fresh(dst.Resources.Limits))   // undischarged on the reference tree: not claimed
+//@   ensures[C14] (dst.Resources.Limits == nil <==> src.Resources.Limits == nil) && (src.Resources.Limits != nil ==> fresh(dst.Resources.Limits))
 //@?   ensures[C14] (src.Resources.Limits != nil ==> copyOf_Resource(dst.Resources.Limits, src.Resources.Limits))   // undischarged on the reference tree: not claimed
-//@?   ensures[C14] (dst.Resources.Reservations == nil <==> src.Resources.Reservations == nil) && (src.Resources.Reservations != nil ==> fresh(dst.Resources.Reservations))   // undischarged on the reference tree: not claimed
+//@   ensures[C14] (dst.Resources.Reservations == nil <==> src.Resources.Reservations == nil) && (src.Resources.Reservations != nil ==> fresh(dst.Resources.Reservations))
 //@?   ensures[C14] (src.Resources.Reservations != nil ==> copyOf_Resource(dst.Resources.Reservations, src.Resources.Reservations))   // undischarged on the reference tree: not claimed
-//@?   ensures[C14] (dst.Resources.Extensions == nil <==> src.Resources.Extensions == nil) && (src.Resources.Extensions != nil ==> fresh(dst.Resources.Extensions))   // undischarged on the reference tree: not claimed
-//@?   ensures[C14] (forall kk string :: has(dst.Resources.Extensions, kk) <==> has(src.Resources.Extensions, kk))   // undischarged on the reference tree: not claimed
-//@?   ensures[C14] (forall kk string :: has(src.Resources.Extensions, kk) ==> dst.Resources.Extensions[kk] == src.Resources.Extensions[kk])   // undischarged on the reference tree: not claimed
+//@   ensures[C14] (dst.Resources.Extensions == nil <==> src.Resources.Extensions == nil) && (src.Resources.Extensions != nil ==> fresh(dst.Resources.Extensions))
+//@   ensures[C14] (forall kk string :: has(dst.Resources.Extensions, kk) <==> has(src.Resources.Extensions, kk))
+//@   ensures[C14] (forall kk string :: has(src.Resources.Extensions, kk) ==> dst.Resources.Extensions[kk] == src.Resources.Extensions[kk])
 
 //@ func deriveDeepCopy_11$2
 //@   nopanic[C14,C20]
 //@   requires dst != nil && src != nil && dst != src
 //@   assigns dst.Placement
-//@?   ensures[C14] (dst.Placement.Constraints == nil <==> src.Placement.Constraints == nil) && (src.Placement.Constraints != nil ==> fresh(dst.Placement.Constraints)) && len(dst.Placement.Constraints) == len(src.Placement.Constraints)   // undischarged on the reference tree: not claimed
-//@?   ensures[C14] (dst.Placement.Preferences == nil <==> src.Placement.Preferences == nil) && (src.Placement.Preferences != nil ==> fresh(dst.Placement.Preferences)) && len(dst.Placement.Preferences) == len(src.Placement.Preferences)   // undischarged on the reference tree: not claimed
+//@   ensures[C14] (dst.Placement.Constraints == nil <==> src.Placement.Constraints == nil) && (src.Placement.Constraints != nil ==> fresh(dst.Placement.Constraints)) && len(dst.Placement.Constraints) == len(src.Placement.Constraints)
+//@   ensures[C14] (dst.Placement.Preferences == nil <==> src.Placement.Preferences == nil) && (src.Placement.Preferences != nil ==> fresh(dst.Placement.Preferences)) && len(dst.Placement.Preferences) == len(src.Placement.Preferences)
 //@?   ensures[C14] (forall ej int :: 0 <= ej && ej < len(src.Placement.Preferences) ==> copyOf_PlacementPreferences(dst.Placement.Preferences[ej], src.Placement.Preferences[ej]))   // undischarged on the reference tree: not claimed
-//@?   ensures[C14] dst.Placement.MaxReplicas == src.Placement.MaxReplicas   // undischarged on the reference tree: not claimed
-//@?   ensures[C14] (dst.Placement.Extensions == nil <==> src.Placement.Extensions == nil) && (src.Placement.Extensions != nil ==> fresh(dst.Placement.Extensions))   // undischarged on the reference tree: not claimed
-//@?   ensures[C14] (forall kk string :: has(dst.Placement.Extensions, kk) <==> has(src.Placement.Extensions, kk))   // undischarged on the reference tree: not claimed
-//@?   ensures[C14] (forall kk string :: has(src.Placement.Extensions, kk) ==> dst.Placement.Extensions[kk] == src.Placement.Extensions[kk])   // undischarged on the reference tree: not claimed
+//@   ensures[C14] dst.Placement.MaxReplicas == src.Placement.MaxReplicas
+//@   ensures[C14] (dst.Placement.Extensions == nil <==> src.Placement.Extensions == nil) && (src.Placement.Extensions != nil ==> fresh(dst.Placement.Extensions))
+//@   ensures[C14] (forall kk string :: has(dst.Placement.Extensions, kk) <==> has(src.Placement.Extensions, kk))
+//@   ensures[C14] (forall kk string :: has(src.Placement.Extensions, kk) ==> dst.Placement.Extensions[kk] == src.Placement.Extensions[kk])
 
 //@ func deriveDeepCopy_12
 //@   except frame[D|Str|Any|c8c47bee8/ret1], frame[HF|T_types_DeviceMapping|0/ret1], frame[HF|T_types_DeviceMapping|1/ret1], frame[HF|T_types_DeviceMapping|2/ret1], frame[HF|T_types_DeviceMapping|3/ret1], frame[M|Str|Any|c8c47bee8/ret1], frame[S|T_types_DeviceMapping|cdaeeaf7/ret1] : undischarged on the reference tree (engine limit or missing callee contract), not claimed
@@ -1315,9 +1315,9 @@ package types
 //@   ensures[C14] (dst.DriverOpts == nil <==> src.DriverOpts == nil) && (src.DriverOpts != nil ==> fresh(dst.DriverOpts))
 //@   ensures[C14] (forall kk string :: has(dst.DriverOpts, kk) <==> has(src.DriverOpts, kk))
 //@   ensures[C14] (forall kk string :: has(src.DriverOpts, kk) ==> dst.DriverOpts[kk] == src.DriverOpts[kk])
-//@?   ensures[C14] dst.Ipam.Driver == src.Ipam.Driver   // undischarged on the reference tree: not claimed
-//@?   ensures[C14] (dst.Ipam.Config == nil <==> src.Ipam.Config == nil) && (src.Ipam.Config != nil ==> fresh(dst.Ipam.Config)) && len(dst.Ipam.Config) == len(src.Ipam.Config)   // undischarged on the reference tree: not claimed
-//@?   ensures[C14] (dst.Ipam.Extensions == nil <==> src.Ipam.Extensions == nil) && (src.Ipam.Extensions != nil ==> fresh(dst.Ipam.Extensions))   // undischarged on the reference tree: not claimed
+//@   ensures[C14] dst.Ipam.Driver == src.Ipam.Driver
+//@   ensures[C14] (dst.Ipam.Config == nil <==> src.Ipam.Config == nil) && (src.Ipam.Config != nil ==> fresh(dst.Ipam.Config)) && len(dst.Ipam.Config) == len(src.Ipam.Config)
+//@   ensures[C14] (dst.Ipam.Extensions == nil <==> src.Ipam.Extensions == nil) && (src.Ipam.Extensions != nil ==> fresh(dst.Ipam.Extensions))
 //@?   ensures[C14] (forall kk string :: has(dst.Ipam.Extensions, kk) <==> has(src.Ipam.Extensions, kk))   // undischarged on the reference tree: not claimed
 //@?   ensures[C14] (forall kk string :: has(src.Ipam.Extensions, kk) ==> dst.Ipam.Extensions[kk] == src.Ipam.Extensions[kk])   // undischarged on the reference tree: not claimed
 //@   ensures[C14] dst.External == src.External
@@ -1339,11 +1339,11 @@ package types
 //@   nopanic[C14,C20]
 //@   requires dst != nil && src != nil && dst != src
 //@   assigns dst.Ipam
-//@?   ensures[C14] dst.Ipam.Driver == src.Ipam.Driver   // undischarged on the reference tree: not claimed
-//@?   ensures[C14] (dst.Ipam.Config == nil <==> src.Ipam.Config == nil) && (src.Ipam.Config != nil ==> fresh(dst.Ipam.Config)) && len(dst.Ipam.Config) == len(src.Ipam.Config)   // undischarged on the reference tree: not claimed
-//@?   ensures[C14] (dst.Ipam.Extensions == nil <==> src.Ipam.Extensions == nil) && (src.Ipam.Extensions != nil ==> fresh(dst.Ipam.Extensions))   // undischarged on the reference tree: not claimed
-//@?   ensures[C14] (forall kk string :: has(dst.Ipam.Extensions, kk) <==> has(src.Ipam.Extensions, kk))   // undischarged on the reference tree: not claimed
-//@?   ensures[C14] (forall kk string :: has(src.Ipam.Extensions, kk) ==> dst.Ipam.Extensions[kk] == src.Ipam.Extensions[kk])   // undischarged on the reference tree: not claimed
+//@   ensures[C14] dst.Ipam.Driver == src.Ipam.Driver
+//@   ensures[C14] (dst.Ipam.Config == nil <==> src.Ipam.Config == nil) && (src.Ipam.Config != nil ==> fresh(dst.Ipam.Config)) && len(dst.Ipam.Config) == len(src.Ipam.Config)
+//@   ensures[C14] (dst.Ipam.Extensions == nil <==> src.Ipam.Extensions == nil) && (src.Ipam.Extensions != nil ==> fresh(dst.Ipam.Extensions))
+//@   ensures[C14] (forall kk string :: has(dst.Ipam.Extensions, kk) <==> has(src.Ipam.Extensions, kk))
+//@   ensures[C14] (forall kk string :: has(src.Ipam.Extensions, kk) ==> dst.Ipam.Extensions[kk] == src.Ipam.Extensions[kk])
 
 //@ func deriveDeepCopy_25
 //@   nopanic[C14,C20]
@@ -1428,13 +1428,13 @@ package types
 //@   ensures[C14] dst[src_i].Path == src_value.Path
 //@   ensures[C14] dst[src_i].Action == src_value.Action
 //@   ensures[C14] dst[src_i].Target == src_value.Target
-//@?   ensures[C14] (dst[src_i].Exec.Command == nil <==> src_value.Exec.Command == nil) && (src_value.Exec.Command != nil ==> fresh(dst[src_i].Exec.Command)) && len(dst[src_i].Exec.Command) == len(src_value.Exec.Command)   // undischarged on the reference tree: not claimed
-//@?   ensures[C14] dst[src_i].Exec.User == src_value.Exec.User   // undischarged on the reference tree: not claimed
-//@?   ensures[C14] dst[src_i].Exec.Privileged == src_value.Exec.Privileged   // undischarged on the reference tree: not claimed
-//@?   ensures[C14] dst[src_i].Exec.WorkingDir == src_value.Exec.WorkingDir   // undischarged on the reference tree: not claimed
-//@?   ensures[C14] (dst[src_i].Exec.Environment == nil <==> src_value.Exec.Environment == nil) && (src_value.Exec.Environment != nil ==> fresh(dst[src_i].Exec.Environment))   // undischarged on the reference tree: not claimed
-//@?   ensures[C14] (forall kk string :: has(dst[src_i].Exec.Environment, kk) <==> has(src_value.Exec.Environment, kk))   // undischarged on the reference tree: not claimed
-//@?   ensures[C14] (dst[src_i].Exec.Extensions == nil <==> src_value.Exec.Extensions == nil) && (src_value.Exec.Extensions != nil ==> fresh(dst[src_i].Exec.Extensions))   // undischarged on the reference tree: not claimed
+//@   ensures[C14] (dst[src_i].Exec.Command == nil <==> src_value.Exec.Command == nil) && (src_value.Exec.Command != nil ==> fresh(dst[src_i].Exec.Command)) && len(dst[src_i].Exec.Command) == len(src_value.Exec.Command)
+//@   ensures[C14] dst[src_i].Exec.User == src_value.Exec.User
+//@   ensures[C14] dst[src_i].Exec.Privileged == src_value.Exec.Privileged
+//@   ensures[C14] dst[src_i].Exec.WorkingDir == src_value.Exec.WorkingDir
+//@   ensures[C14] (dst[src_i].Exec.Environment == nil <==> src_value.Exec.Environment == nil) && (src_value.Exec.Environment != nil ==> fresh(dst[src_i].Exec.Environment))
+//@   ensures[C14] (forall kk string :: has(dst[src_i].Exec.Environment, kk) <==> has(src_value.Exec.Environment, kk))
+//@   ensures[C14] (dst[src_i].Exec.Extensions == nil <==> src_value.Exec.Extensions == nil) && (src_value.Exec.Extensions != nil ==> fresh(dst[src_i].Exec.Extensions))
 //@?   ensures[C14] (forall kk string :: has(dst[src_i].Exec.Extensions, kk) <==> has(src_value.Exec.Extensions, kk))   // undischarged on the reference tree: not claimed
 //@?   ensures[C14] (forall kk string :: has(src_value.Exec.Extensions, kk) ==> dst[src_i].Exec.Extensions[kk] == src_value.Exec.Extensions[kk])   // undischarged on the reference tree: not claimed
 //@   ensures[C14] (dst[src_i].Ignore == nil <==> src_value.Ignore == nil) && (src_value.Ignore != nil ==> fresh(dst[src_i].Ignore)) && len(dst[src_i].Ignore) == len(src_value.Ignore)
@@ -1746,13 +1746,13 @@ package types
 //@   ensures[C14] dst.Path == src.Path
 //@   ensures[C14] dst.Action == src.Action
 //@   ensures[C14] dst.Target == src.Target
-//@?   ensures[C14] (dst.Exec.Command == nil <==> src.Exec.Command == nil) && (src.Exec.Command != nil ==> fresh(dst.Exec.Command)) && len(dst.Exec.Command) == len(src.Exec.Command)   // undischarged on the reference tree: not claimed
-//@?   ensures[C14] dst.Exec.User == src.Exec.User   // undischarged on the reference tree: not claimed
-//@?   ensures[C14] dst.Exec.Privileged == src.Exec.Privileged   // undischarged on the reference tree: not claimed
-//@?   ensures[C14] dst.Exec.WorkingDir == src.Exec.WorkingDir   // undischarged on the reference tree: not claimed
-//@?   ensures[C14] (dst.Exec.Environment == nil <==> src.Exec.Environment == nil) && (src.Exec.Environment != nil ==> fresh(dst.Exec.Environment))   // undischarged on the reference tree: not claimed
-//@?   ensures[C14] (forall kk string :: has(dst.Exec.Environment, kk) <==> has(src.Exec.Environment, kk))   // undischarged on the reference tree: not claimed
-//@?   ensures[C14] (dst.Exec.Extensions == nil <==> src.Exec.Extensions == nil) && (src.Exec.Extensions != nil ==> fresh(dst.Exec.Extensions))   // undischarged on the reference tree: not claimed
+//@   ensures[C14] (dst.Exec.Command == nil <==> src.Exec.Command == nil) && (src.Exec.Command != nil ==> fresh(dst.Exec.Command)) && len(dst.Exec.Command) == len(src.Exec.Command)
+//@   ensures[C14] dst.Exec.User == src.Exec.User
+//@   ensures[C14] dst.Exec.Privileged == src.Exec.Privileged
+//@   ensures[C14] dst.Exec.WorkingDir == src.Exec.WorkingDir
+//@   ensures[C14] (dst.Exec.Environment == nil <==> src.Exec.Environment == nil) && (src.Exec.Environment != nil ==> fresh(dst.Exec.Environment))
+//@   ensures[C14] (forall kk string :: has(dst.Exec.Environment, kk) <==> has(src.Exec.Environment, kk))
+//@   ensures[C14] (dst.Exec.Extensions == nil <==> src.Exec.Extensions == nil) && (src.Exec.Extensions != nil ==> fresh(dst.Exec.Extensions))
 //@?   ensures[C14] (forall kk string :: has(dst.Exec.Extensions, kk) <==> has(src.Exec.Extensions, kk))   // undischarged on the reference tree: not claimed
 //@?   ensures[C14] (forall kk string :: has(src.Exec.Extensions, kk) ==> dst.Exec.Extensions[kk] == src.Exec.Extensions[kk])   // undischarged on the reference tree: not claimed
 //@   ensures[C14] (dst.Ignore == nil <==> src.Ignore == nil) && (src.Ignore != nil ==> fresh(dst.Ignore)) && len(dst.Ignore) == len(src.Ignore)
@@ -1764,15 +1764,15 @@ package types
 //@   nopanic[C14,C20]
 //@   requires dst != nil && src != nil && dst != src
 //@   assigns dst.Exec
-//@?   ensures[C14] (dst.Exec.Command == nil <==> src.Exec.Command == nil) && (src.Exec.Command != nil ==> fresh(dst.Exec.Command)) && len(dst.Exec.Command) == len(src.Exec.Command)   // undischarged on the reference tree: not claimed
-//@?   ensures[C14] dst.Exec.User == src.Exec.User   // undischarged on the reference tree: not claimed
-//@?   ensures[C14] dst.Exec.Privileged == src.Exec.Privileged   // undischarged on the reference tree: not claimed
-//@?   ensures[C14] dst.Exec.WorkingDir == src.Exec.WorkingDir   // undischarged on the reference tree: not claimed
-//@?   ensures[C14] (dst.Exec.Environment == nil <==> src.Exec.Environment == nil) && (src.Exec.Environment != nil ==> fresh(dst.Exec.Environment))   // undischarged on the reference tree: not claimed
-//@?   ensures[C14] (forall kk string :: has(dst.Exec.Environment, kk) <==> has(src.Exec.Environment, kk))   // undischarged on the reference tree: not claimed
-//@?   ensures[C14] (dst.Exec.Extensions == nil <==> src.Exec.Extensions == nil) && (src.Exec.Extensions != nil ==> fresh(dst.Exec.Extensions))   // undischarged on the reference tree: not claimed
-//@?   ensures[C14] (forall kk string :: has(dst.Exec.Extensions, kk) <==> has(src.Exec.Extensions, kk))   // undischarged on the reference tree: not claimed
-//@?   ensures[C14] (forall kk string :: has(src.Exec.Extensions, kk) ==> dst.Exec.Extensions[kk] == src.Exec.Extensions[kk])   // undischarged on the reference tree: not claimed
+//@   ensures[C14] (dst.Exec.Command == nil <==> src.Exec.Command == nil) && (src.Exec.Command != nil ==> fresh(dst.Exec.Command)) && len(dst.Exec.Command) == len(src.Exec.Command)
+//@   ensures[C14] dst.Exec.User == src.Exec.User
+//@   ensures[C14] dst.Exec.Privileged == src.Exec.Privileged
+//@   ensures[C14] dst.Exec.WorkingDir == src.Exec.WorkingDir
+//@   ensures[C14] (dst.Exec.Environment == nil <==> src.Exec.Environment == nil) && (src.Exec.Environment != nil ==> fresh(dst.Exec.Environment))
+//@   ensures[C14] (forall kk string :: has(dst.Exec.Environment, kk) <==> has(src.Exec.Environment, kk))
+//@   ensures[C14] (dst.Exec.Extensions == nil <==> src.Exec.Extensions == nil) && (src.Exec.Extensions != nil ==> fresh(dst.Exec.Extensions))
+//@   ensures[C14] (forall kk string :: has(dst.Exec.Extensions, kk) <==> has(src.Exec.Extensions, kk))
+//@   ensures[C14] (forall kk string :: has(src.Exec.Extensions, kk) ==> dst.Exec.Extensions[kk] == src.Exec.Extensions[kk])
 
 //@ func deriveDeepCopy_47
 //@   nopanic[C14,C20]
